@@ -343,27 +343,31 @@ class ModelCacheMixin:
 
     def min(self, e, extra_constraints=(), signed=False, exact=None):
         cached = []
-        if e.hash() in self._eval_exhausted or e.hash() in self._min_exhausted:
+        exhausted = self._min_signed_exhausted if signed else self._min_exhausted
+        # the cached models are only known to contain the optimum for the signedness that was asked for and when no
+        # extra constraints restrict them further
+        if len(extra_constraints) == 0 and (e.hash() in self._eval_exhausted or e.hash() in exhausted):
             # we set allow_unconstrained to False because we expect all returned values for e are returned by Z3,
             # instead of some arbitrarily assigned concrete values.
-            cached = self._get_solutions(e, extra_constraints=extra_constraints, allow_unconstrained=False)
+            cached = self._get_solutions(e, allow_unconstrained=False)
 
         if len(cached) > 0:
 
             def signed_key(v):
-                return v if v >= 0 else v + 2 ** len(e)
+                return v if v < 2 ** (len(e) - 1) else v - 2 ** len(e)
 
             return min(cached, key=signed_key if signed else lambda v: v)
 
         m = super().min(e, extra_constraints=extra_constraints, signed=signed, exact=exact)
         if len(extra_constraints) == 0:
-            (self._min_signed_exhausted if signed else self._min_exhausted)[e.hash()] = e
+            exhausted[e.hash()] = e
         return m
 
     def max(self, e, extra_constraints=(), signed=False, exact=None):
         cached = []
-        if e.hash() in self._eval_exhausted or e.hash() in self._max_exhausted:
-            cached = self._get_solutions(e, extra_constraints=extra_constraints, allow_unconstrained=False)
+        exhausted = self._max_signed_exhausted if signed else self._max_exhausted
+        if len(extra_constraints) == 0 and (e.hash() in self._eval_exhausted or e.hash() in exhausted):
+            cached = self._get_solutions(e, allow_unconstrained=False)
 
         if len(cached) > 0:
 
@@ -374,7 +378,7 @@ class ModelCacheMixin:
 
         m = super().max(e, extra_constraints=extra_constraints, signed=signed, exact=exact)
         if len(extra_constraints) == 0:
-            (self._max_signed_exhausted if signed else self._max_exhausted)[e.hash()] = e
+            exhausted[e.hash()] = e
         return m
 
     def solution(self, e, v, extra_constraints=(), exact=None):
